@@ -2,7 +2,7 @@
     One constructor per C++ model file; where the copies of a model differ between feature
     types the evaluation branches on the feature kind. *)
 From Coq Require Import List Arith NArith ZArith Lia Bool.
-From WB Require Import Num Base Props World Kernels.
+From WB Require Import Num Base Props World Kernels Tian.
 Import ListNotations.
 
 Section Features.
@@ -81,7 +81,10 @@ Section Features.
     let cmp (pb : pt2) : F * F * F := if sph then (a, fst pb, snd pb) else (fst pb, snd pb, c3) in
     let d1 := dist_same_depth sph nat_min (cmp pb1) in
     let d2 := dist_same_depth sph nat_min (cmp pb2) in
-    if d2 <? d1 then (d2, s2) else (d1, s1).
+    (* the copy of the point closest in longitude to the segment decides (the projection of the other copy is an
+       arbitrary point of the segment) *)
+    let mid := fhalf * (fst p0 + fst p1) in
+    if fabs (fst cp2 - mid) <? fabs (fst cp - mid) then (d2, s2) else (d1, s1).
 
   Fixpoint ridge_scan (sph : bool) (nat_min : F * F * F) (cp cp2 : pt2) (pts : list pt2) (vels : list F)
            (first : bool) (best : F * F) : F * F :=
@@ -215,7 +218,8 @@ Section Features.
   (** ** composition models *)
   Inductive comp_model :=
   | CUniform (mn mx : dsurf) (o : op) (comps : list N) (fracs : list F)
-  | CRandom (mn mx : dsurf) (o : op) (comps : list N) (mins maxs : list F).   (* continental plate only *)
+  | CRandom (mn mx : dsurf) (o : op) (comps : list N) (mins maxs : list F)    (* continental plate only *)
+  | CTian (mn mx : dsurf) (o : op) (comps : list N) (lith : lithology) (density maxw cutoff : F).   (* oceanic plate only *)
 
   Fixpoint find_comp (comps : list N) (fracs : list F) (c : N) : option F :=
     match comps, fracs with
@@ -224,7 +228,7 @@ Section Features.
     end.
 
   (** [tape] is the stream of uniform draws in [0,1) of the world's random engine, [t] the position *)
-  Definition comp_eval (tape : nat -> F) (sph : bool) (q : query) (m : comp_model) (c : N) (st : F * nat) : F * nat :=
+  Definition comp_eval (tape : nat -> F) (sph : bool) (q : query) (wt : @wtemp F) (m : comp_model) (c : N) (st : F * nat) : F * nat :=
     let '(old, t) := st in
     match m with
     | CUniform mn mx o comps fracs =>
@@ -253,12 +257,30 @@ Section Features.
             end
           else (old, t)
         else (old, t)
+    | CTian mn mx o comps lith density maxw cutoff =>
+        (* tian2019_water_content.cc: bound water from the lithostatic pressure and the temperature of the whole world here *)
+        let d := q_depth q in
+        if in_range (ds_min mn) (ds_max mx) d then
+          if in_range (dsl sph q mn) (dsl sph q mx) d then
+            match wt tt with
+            | Ok T =>
+                if existsb (N.eqb c) comps then (apply_op o old (tian_value lith density maxw cutoff d T), t)
+                else (match o with OReplace => f0 | _ => old end, t)
+            | Err _ => (old, t)
+            end
+          else (old, t)
+        else (old, t)
     end.
 
-  Definition comp_err (sph : bool) (q : query) (m : comp_model) : bool :=
+  Definition comp_err (sph : bool) (q : query) (wt : @wtemp F) (m : comp_model) : bool :=
     match m with
     | CUniform mn mx _ _ _ | CRandom mn mx _ _ _ _ =>
         in_range (ds_min mn) (ds_max mx) (q_depth q) && (dsl_err sph q mn || dsl_err sph q mx)
+    | CTian mn mx _ _ _ _ _ _ =>
+        in_range (ds_min mn) (ds_max mx) (q_depth q)
+        && (dsl_err sph q mn || dsl_err sph q mx
+            || (in_range (dsl sph q mn) (dsl sph q mx) (q_depth q)
+                && match wt tt with Ok _ => false | Err _ => true end))
     end.
 
   (** ** velocity models *)
@@ -399,7 +421,7 @@ Section Features.
 
   Definition vec_of (l : list F) : F * F * F := (nth 0 l f0, nth 1 l f0, nth 2 l f0).
 
-  Definition area_paint (g : globals) (tape : nat -> F) (sph : bool) (a : area_feature) (q : query)
+  Definition area_paint (g : globals) (tape : nat -> F) (sph : bool) (a : area_feature) (q : query) (wt : @wtemp F)
              (p : prop_req) (t : nat) (blk : list F) : list F * nat :=
     let mnl := dsl sph q (af_min a) in
     let mxl := dsl sph q (af_max a) in
@@ -407,7 +429,7 @@ Section Features.
     | PTemp =>
         ([fold_left (fun old m => temp_eval g (af_kind a) sph q mnl mxl m old) (af_temp a) (nth 0 blk f0)], t)
     | PComp c =>
-        let '(v, t') := fold_left (fun st m => comp_eval tape sph q m c st) (af_comp a) (nth 0 blk f0, t) in ([v], t')
+        let '(v, t') := fold_left (fun st m => comp_eval tape sph q wt m c st) (af_comp a) (nth 0 blk f0, t) in ([v], t')
     | PGrains c k =>
         fold_left (fun st m => grains_eval tape sph q m c k st) (af_grains a) (blk, t)
     | PTag => ([af_tag a], t)
@@ -416,10 +438,10 @@ Section Features.
         ([vx; vy; vz], t)
     end.
 
-  Definition area_paint_err (sph : bool) (a : area_feature) (q : query) (p : prop_req) : bool :=
+  Definition area_paint_err (sph : bool) (a : area_feature) (q : query) (wt : @wtemp F) (p : prop_req) : bool :=
     match p with
     | PTemp => existsb (temp_err sph q) (af_temp a)
-    | PComp _ => existsb (comp_err sph q) (af_comp a)
+    | PComp _ => existsb (comp_err sph q wt) (af_comp a)
     | PGrains _ _ => existsb (grains_err sph q) (af_grains a)
     | PTag => false
     | PVel => existsb (vel_err sph q) (af_vel a)
